@@ -20,6 +20,27 @@ Verdicts (exit 1) come only from 3 and 4.
 `--replay <file>` re-runs the whole check (stress schedules are not reproducible step by step; the replay file
 records the race report / failing oracle, the target mock and the model's prediction).
 Environment: C05_NORACE=1 builds the stress driver without -race (self-test of the fallback oracles).
+
+COVERAGE TABLE (clause / dimension -> what explores it -> single point or absent)
+  "any number of goroutines"      model: 2x3, 3x2, 2x2 (quick) .. 3x3, 2x4, 4x1 (thorough) over the EXTRACTED programs; stress: 8
+                                  callers + 2 readers + 2 resetters, GOMAXPROCS >= 4.  Single point: one GOMAXPROCS setting per run.
+  "call the methods concurrently" A from all goroutines, B every third call, different methods concurrently (per-method locks);
+                                  stub-impl mocks additionally as pure recorders (MFunc nil).  Absent: concurrent assignment of
+                                  MFunc fields (user statement, outside the property).
+  "read recorded calls"           ACalls/BCalls readers decoding every record while calls/resets run; results retained across resets.
+  "or reset them"                 ResetACalls+ResetBCalls and ResetCalls goroutines; reset phase followed by a quiet phase
+                                  (nothing of the quiet phase may be lost).  ResetCalls is per-method atomic, not atomic over all
+                                  methods (the linearizability spec says so since a recorded history showed it).
+  no race                         Go race detector on everything above; lockset + lost-update invariants on the extracted programs
+                                  (predictions).  A race report must have a frame in generated code.
+  no lost/duplicated/torn record  count and multiset (no reset), per-goroutine order, every field of a record decodes to one (g,k)
+  mocked methods                  arity 0-3, variadic, sole `...interface{}`, 0-2 results, non-ASCII/initialism names, generic K9[T].
+                                  Single point: two methods per mock in the model alphabet.
+  testify: "adds no shared state" footprint extraction of every function in the file (constructor, EXPECT, typed helpers, Run /
+                                  RunAndReturn wrappers) = prediction; stress: concurrent constructors, concurrent FIRST EXPECT(),
+                                  On() and EXPECT().B() registration concurrent with calls, function-valued returns, caller re-using
+                                  its variadic buffer in unroll mode, mock.Mock.Calls checked entry by entry.
+                                  Absent: Times(n)/Once bookkeeping under contention (testify's own), AssertExpectations concurrent.
 """
 import json
 import os
